@@ -109,20 +109,9 @@ class OverloadMethodGenerator:
         # Determine parameter name and type based on content type
         param_info = self._get_content_type_param_info(content_type, schema, context)
 
-        # Build parameter list from operation parameters directly
+        # Build parameter list: path, query, header and cookie parameters as in the single-content signature
         param_parts = ["self"]
-
-        # Add path, query, and header parameters from operation
-        if op.parameters:
-            from ....types.services.type_service import UnifiedTypeService
-
-            type_service = UnifiedTypeService(self.schemas)
-
-            for param in op.parameters:
-                if param.param_in in ("path", "query", "header"):
-                    param_type = type_service.resolve_schema_type(param.schema, context, required=param.required)
-                    sanitized_name = NameSanitizer.sanitize_method_name(param.name)
-                    param_parts.append(f"{sanitized_name}: {param_type}")
+        param_parts.extend(self._operation_param_parts(op, context))
 
         # Add keyword-only separator
         param_parts.append("*")
@@ -148,6 +137,32 @@ class OverloadMethodGenerator:
         writer.write_line(f") -> {return_type}: ...")
 
         return writer.get_code()
+
+    def _operation_param_parts(self, op: IROperation, context: RenderContext) -> list[str]:
+        """
+        Get the path, query, header and cookie parameters of the signature.
+
+        These are the parameters of the single-content signature without the request body parameter:
+        required ones first, optional ones default to None, path variables without a parameter object included.
+
+        Args:
+            op: The operation
+            context: Render context for type resolution
+
+        Returns:
+            List of "name: type" / "name: type = None" parameter strings
+        """
+        ordered_params, _, _ = self.parameter_processor.process_parameters(op, context)
+
+        param_parts = []
+        for p in ordered_params:
+            if p["param_in"] == "body":
+                continue
+            param_part = f"{NameSanitizer.sanitize_method_name(p['name'])}: {p['type']}"
+            if not p.get("required", False):
+                param_part += " = None"
+            param_parts.append(param_part)
+        return param_parts
 
     def _get_content_type_param_info(self, content_type: str, schema: Any, context: RenderContext) -> dict[str, str]:
         """
@@ -201,20 +216,9 @@ class OverloadMethodGenerator:
         """
         writer = CodeWriter()
 
-        # Build parameter list
+        # Build parameter list: path, query, header and cookie parameters as in the single-content signature
         param_parts = ["self"]
-
-        # Add path, query, and header parameters from operation
-        if op.parameters:
-            from ....types.services.type_service import UnifiedTypeService
-
-            type_service = UnifiedTypeService(self.schemas)
-
-            for param in op.parameters:
-                if param.param_in in ("path", "query", "header"):
-                    param_type = type_service.resolve_schema_type(param.schema, context, required=param.required)
-                    sanitized_name = NameSanitizer.sanitize_method_name(param.name)
-                    param_parts.append(f"{sanitized_name}: {param_type}")
+        param_parts.extend(self._operation_param_parts(op, context))
 
         # Add keyword-only separator
         param_parts.append("*")
